@@ -515,6 +515,7 @@ class Engine:
         self.cvc5_first = True
         self.dissent_timeout_ms = 300
         self.disagreements = 0
+        self.retries = 0
         self.cvc5_branch = False
         self.cvc5_branch_timeout = 3.0
         self.cvc5_branch_queries = 0
@@ -627,6 +628,10 @@ class Engine:
         sl, closure = self.slice_for(extra) if extra else (list(self.pc), None)
         q = sl + list(extra)
         r, m = self._solve(q, timeout_ms or self.branch_timeout_ms)
+        if r == 'unknown':
+            # a loaded machine makes wall-clock solver budgets flaky: one generous retry
+            self.retries += 1
+            r, m = self._solve(q, 8 * (timeout_ms or self.branch_timeout_ms))
         upd = None
         if r == 'sat':
             upd = {}
@@ -782,6 +787,9 @@ class Engine:
         sl, closure = self.slice_for(conds)
         q = sl + conds
         r, m = self._solve(q, timeout_ms)
+        if r == 'unknown':
+            self.retries += 1
+            r, m = self._solve(q, 4 * timeout_ms)
         model = None
         if r == 'sat':
             upd = {}
